@@ -717,4 +717,48 @@ pub fn oracle_c15(ctx: &Ctx, sub: &str, idx: u64, case: &Case, obs: &Observed, o
             Err(p) => out.violation(format!("C15|frame-parser-panic|{}", p.site()), p.short(), rp()),
         }
     }
+    // subframes on their own: serialise each subframe of the first frames, parse it with the
+    // subframe parser at the width its channel has in that frame (side channels: +1), and demand
+    // identical bits, a tree that verifies and the samples refdec decoded for that subframe
+    type BitErr<'a> = nom::error::Error<(&'a [u8], usize)>;
+    for i in 0..obs.stream.frame_count().min(3) {
+        let f = obs.stream.frame(i).unwrap();
+        let n = f.header().block_size();
+        for ch in 0..f.subframe_count() {
+            let sf = f.subframe(ch).unwrap();
+            let bps = case.audio.bps + f.header().channel_assignment().bits_per_sample_offset(ch);
+            let bits = sf.count_bits();
+            let Ok(sb) = enc::to_bytes(sf) else { continue };
+            let mut padded = sb.clone();
+            padded.extend_from_slice(&[0u8; 8]);
+            let r = catch(|| {
+                let mut p = flacenc::component::parser::subframe::<BitErr<'_>>(n, bps);
+                p((&padded[..], 0)).map(|((rest, off), x)| ((padded.len() - rest.len()) * 8 + off, x)).map_err(|e| format!("{e:?}").chars().take(160).collect::<String>())
+            });
+            match r {
+                Ok(Ok((consumed, sf2))) => {
+                    out.count("subframes_parsed_alone");
+                    if consumed != bits {
+                        out.violation("C15|subframe-consumed-bits", format!("frame {i} ch {ch}: the subframe parser consumed {consumed} bits of a {bits}-bit subframe"), rp());
+                    }
+                    if let Ok(Err(e)) = catch(|| sf2.verify()) {
+                        out.violation("C15|parsed-subframe-does-not-verify", format!("frame {i} ch {ch}: {e}"), rp());
+                    }
+                    match enc::to_bytes(&sf2) {
+                        Ok(b2) if b2 == sb => {}
+                        _ => out.violation("C15|subframe-reserialisation-differs", format!("frame {i} ch {ch}"), rp()),
+                    }
+                    if let Some(fr) = obs.rep.frames.get(i) {
+                        if let (Some(sr), Ok(dec)) = (fr.subframes.get(ch), catch(|| sf2.decode())) {
+                            if dec.iter().map(|x| i64::from(*x)).collect::<Vec<i64>>() != sr.samples {
+                                out.violation("C15|subframe-decode-differs", format!("frame {i} ch {ch}: Decode of the parsed subframe differs from the independent decoder's samples"), rp());
+                            }
+                        }
+                    }
+                }
+                Ok(Err(e)) => out.violation("C15|subframe-rejected", format!("frame {i} ch {ch} ({bps} bit, n={n}): {e}"), rp()),
+                Err(p) => out.violation(format!("C15|subframe-parser-panic|{}", p.site()), p.short(), rp()),
+            }
+        }
+    }
 }
